@@ -167,7 +167,7 @@ fn parse_seeds(zoo: &[ZooKey], thorough: bool) -> Vec<(String, Vec<u8>)> {
     cst.ekus = vec![EkuSpec::ServerAuth];
     v.push(("csr".into(), to_params(&cst).unwrap().serialize_request(&kp).unwrap().der().to_vec()));
     // keys in every format (parsers see them whether or not the back end supports the format)
-    for z in zoo.iter().filter(|z| z.name.contains("_1") && (thorough || !matches!(z.kind, KeyKind::Rsa3072 | KeyKind::Rsa4096 | KeyKind::Rsa2048 | KeyKind::P521))) {
+    for z in zoo.iter().filter(|z| z.name.contains("_1") && (thorough || !(z.kind.is_slow() || matches!(z.kind, KeyKind::Rsa2048 | KeyKind::P521)))) {
         v.push((format!("key {}", z.name), z.der.clone()));
     }
     if thorough {
@@ -395,6 +395,22 @@ pub fn hostile_space() -> Space<GenCase> {
         });
     }
     dims.push(d);
+    // texts the restricted string constructors refuse today (such a state is unconstructible and skipped); should a
+    // constructor ever admit one of them, the serialiser is reached with it
+    let mut d = Dim::new("restricted-string text");
+    for t in ["\u{e9}.example", "\u{100}x.example", "\u{2603}", "\u{1f980}", "\u{8f}", "a\u{430}"] {
+        let s = t.to_string();
+        d = d.v(format!("san dns/rfc822/uri {:?}", t), {
+            let s = s.clone();
+            move |c: &mut GenCase| {
+                c.st.sans = vec![SanSpec::Dns(s.clone()), SanSpec::Email(s.clone()), SanSpec::Uri(s.clone())];
+            }
+        });
+        d = d.v(format!("dn ia5 / printable {:?}", t), move |c: &mut GenCase| {
+            c.st.dn = DnSpec(vec![(DnTypeSpec::Cn, StrKind::Ia5, s.clone()), (DnTypeSpec::O, StrKind::Printable, s.clone())]);
+        });
+    }
+    dims.push(d);
     let mut d = Dim::new("uri text");
     for t in non_ascii {
         let s = t.to_string();
@@ -540,6 +556,22 @@ fn drive(c: &GenCase, ctx: &Ctx, issuer: &IssuerReal, f: &mut Vec<Finding>) -> u
             let _ = cert.pem();
         }
     }));
+    // the third way of issuing: a parsed request whose public `params` field holds these parameters
+    call("CertificateSigningRequestParams::signed_by", guarded(|| {
+        static CSR: std::sync::OnceLock<Vec<u8>> = std::sync::OnceLock::new();
+        let der = CSR.get_or_init(|| {
+            let zoo = load_zoo();
+            let z = zoo.iter().find(|z| z.kind == KeyKind::Ed25519).unwrap();
+            let k = rc_load(z, Alg::Ed25519).unwrap();
+            rcgen::CertificateParams::default().serialize_request(&k).unwrap().der().to_vec()
+        });
+        if let Ok(mut parsed) = rcgen::CertificateSigningRequestParams::from_der(&der.clone().into()) {
+            parsed.params = params.clone();
+            if let Ok(cert) = parsed.signed_by(&issuer.cert, &issuer.key) {
+                let _ = cert.pem();
+            }
+        }
+    }));
     // a hostile name also as the ISSUER's name
     call("issuer with these parameters", guarded(|| {
         if let Ok(ca) = params.clone().self_signed(kp) {
@@ -598,7 +630,7 @@ fn part_generation(rep: &mut Report, thorough: bool) {
     let ctx = stub_self_ctx(Alg::Ed25519, 1);
     let ictx = stub_issuer_ctx(Alg::EcP256, &DnSpec::cn("issuer"), &KeyIdSpec::Sha256, Alg::Ed25519, "pair");
     let issuer = ictx.issuer.as_ref().unwrap();
-    let sec = Section::new("generation/hostile-levels", "constructible but hostile parameter values (non-ASCII text in String-typed IA5 fields, OID component lists of any shape, dates whose UTC year leaves 0..=9999, empty/huge serials, 10^4-element lists, 64 KiB strings) at deviation levels k <= 2 (thorough 3), through self_signed, signed_by, as issuer, serialize_request(_with_attributes), CRL signed_by, pem(), Debug/Display and accessors").with_deadline(if thorough { 1100 } else { 45 });
+    let sec = Section::new("generation/hostile-levels", "constructible but hostile parameter values (non-ASCII text in String-typed IA5 fields, OID component lists of any shape, dates whose UTC year leaves 0..=9999, empty/huge serials, 10^4-element lists, 64 KiB strings) at deviation levels k <= 2 (thorough 3), through self_signed, signed_by, CertificateSigningRequestParams::signed_by, as issuer, serialize_request(_with_attributes), CRL signed_by, pem(), Debug/Display and accessors").with_deadline(if thorough { 1100 } else { 45 });
     run::levels(&sec, &space, if thorough { 3 } else { 2 }, &|c, _| {
         let mut out = Outcome::default();
         let mut f = Vec::new();
